@@ -529,7 +529,7 @@ func runBounded(p *Prog, rep *Report, prop string, thorough bool, seed int, veri
 // reported on a VIOLATION line of its own. The battery is never run on a tree whose
 // obligations all discharge.
 func runDemoBattery(p *Prog, rep *Report, prop, verif, repo string) {
-	if rep.Violations == 0 {
+	if rep.Violations == 0 || os.Getenv("GOVC_NO_BATTERY") != "" {
 		return
 	}
 	for _, l := range rep.Lines {
